@@ -475,7 +475,9 @@ pub fn run_batch<E: Engine>(engine: &E, opts: &BatchOpts) -> BatchResult {
         match r {
             Ok(vs) => {
                 for v in vs {
-                    if opts.report_all_properties || v.property == opts.property {
+                    // a panic inside revm is reported by whichever check meets it (it is a C25
+                    // violation wherever it happens; a twin that panics has also "changed execution")
+                    if opts.report_all_properties || v.property == opts.property || v.oracle == "C25.no-panic" {
                         violations.push((i, v));
                     } else {
                         other += 1;
@@ -633,7 +635,7 @@ impl CheckReport {
             seed: self.seed,
             runs,
             workers,
-            report_all_properties: false,
+            report_all_properties: std::env::var("VERIF_REPORT_ALL").is_ok(),
             max_samples: 3,
         };
         let res = run_batch(engine, &opts);
